@@ -871,13 +871,18 @@ fn judge(ctx: &Ctx, cp: &CrashPoint, out: &Result<Outcome, String>) -> Verdict {
     // every failure of a restart that replayed a block while its parent was not stored is
     // attributed to that listed finding (as C05 does for the orphan branch of add_block)
     // ... provided the missing parent is explained by one of the listed triggers: its file is on the
-    // crashed disk and decodes (it was rejected when replayed), or it lies at / below the oldest height
-    // on disk (it was purged: siblings above a purged parent, crash between the deletions of a purge).
+    // crashed disk and decodes (it was rejected when replayed), or it is an invalid block (rejected and
+    // deleted by an earlier restart of this history), or it lies at / below the oldest height on disk
+    // (it was purged: siblings above a purged parent, crash between the deletions of a purge).
     // A parent missing from the MIDDLE of the stored range is not listed.
     let min_disk_id = out.disk_blocks.iter().map(|x| x.1).min().unwrap_or(0);
     let explained = out.orphan_parents.iter().all(|ph| {
         out.disk_blocks.iter().any(|x| x.0 == *ph)
-            || ctx.by_hash.get(ph).map(|i| h.blocks[*i].block.id <= min_disk_id).unwrap_or(false)
+            || ctx
+                .by_hash
+                .get(ph)
+                .map(|i| h.blocks[*i].block.id <= min_disk_id || h.blocks[*i].eff_invalid)
+                .unwrap_or(false)
     });
     if !out.orphans.is_empty() && !explained {
         v.failures.push(format!(
